@@ -894,6 +894,28 @@ func TestKnown(t *testing.T) {
 		}
 		ev.R.Case(ir.Hash(c), true, "family:authorize", "in-set-same-kind-members")
 	}
+	// a hierarchy with a cycle back to the queried entity next to the parents that lead on: a walk whose treatment of the
+	// cycle depends on where the start entity comes up in the (map-ordered) parent set answers differently from call to call
+	{
+		a, b, tgt := ir.Ent("T0", "a"), ir.Ent("T0", "b"), ir.Ent("T1", "t")
+		st := ir.Store{{UID: a, Parents: []ir.Value{b}}, {UID: b, Parents: []ir.Value{a, ir.Ent("T0", "c1"), ir.Ent("T0", "c2"), ir.Ent("T0", "c3")}},
+			{UID: ir.Ent("T0", "c1")}, {UID: ir.Ent("T0", "c2"), Parents: []ir.Value{b, tgt}}, {UID: ir.Ent("T0", "c3"), Parents: []ir.Value{a}}, {UID: tgt}}
+		w := gen.World{Store: st, Req: ir.Request{Principal: a, Action: ir.Ent("Action", "view"), Resource: a, Context: ir.Rec(ir.F("ok", ir.Bool(true)))}}
+		scoped := ir.NewPolicy(true)
+		scoped.Principal = ir.ScopeIn(tgt)
+		isin := ir.NewPolicy(true)
+		isin.Resource = ir.ScopeIsIn("T0", tgt)
+		c := &Case{Family: "authorize", World: &w, R: 300, Policies: []Named{
+			{ID: "cond", P: cond(true, ir.Bin(ir.OpIn, ir.Var("principal"), lit(tgt)))},
+			{ID: "set", P: cond(true, ir.Bin(ir.OpIn, ir.Var("principal"), ir.SetE(lit(ir.Ent("T1", "zz")), lit(tgt))))},
+			{ID: "isin", P: cond(false, ir.Un(ir.OpNot, ir.IsIn(ir.Var("principal"), "T0", lit(tgt))))},
+			{ID: "scope", P: scoped}, {ID: "scope-isin", P: isin}}}
+		if sub, msg := checkAuthorize(c); sub != "" {
+			ev.R.Violation(sub, c, msg)
+			t.Errorf("C14/%s (cycle next to the way on): %s", sub, msg)
+		}
+		ev.R.Case(ir.Hash(c), true, "family:authorize", "cycle-next-to-the-way-on")
+	}
 	// a set whose ids tie under any "natural" / case-folding / trimmed comparison, encoded again and again
 	{
 		var ps []Named
